@@ -15,7 +15,14 @@ values of the LR sweep, RL sweep, transposed sweep, every split, and the no-op t
 an independent exact evaluation (`py_exact`: pure-Python cell-by-cell transfer contraction with Python ints /
 Fractions, sharing nothing with qecsim).
 
-Theorems (Props/C11.lean) are about the model; see that file for what is proved and what is only stated.
+Theorems (Props/C11.lean), all proved: over any commutative semiring and any grid shape / compatible bond dimensions
+the LR sweep, the RL sweep, every split-and-recombine, the rows-first merge and the columns-first merge give the same
+tensor, and the transposed network gives its transpose (interchange law + associativity of the pairwise cell); for the
+executed Int model on None-free networks `contract` (default) and `contract(step=-1)` return the scalar of that grid
+tensor; cell / ladder-step of the array model agree with the algebra on every in-range entry; no-op truncation
+(per `truncate` call incl. chi >= bond; whole `contract` for falsy tol with chi None/0 and for all-false masks);
+not-scalar and non-contiguous inputs raise ValueError.  Stated but not proved there: brute-force `exactValue` = grid
+tensor (checked here on every run instead), model-level split / None padding / chi >= every occurring bond.
 Explored, not proved (ctx.explored): float networks (widely ranging positive magnitudes) against the exact rational
 value, and the lossless-truncation path (tiny tol) recombined with its multipliers — LAPACK is outside the model.
 """
@@ -158,18 +165,29 @@ def mk_tensor(rng, shape, dtype, mag):
     return a.reshape(shape)
 
 
-def gen_net(rng, R, C, dtype, mag, maxbond=3, pad=False):
+def gen_net(rng, R, C, dtype, mag, maxbond=3, pad=False, exact_guard=True):
     """compatible grid; None padding at column ends; returns (tn, info)"""
     present = [[True] * C for _ in range(R)]
     if pad and R >= 2:
+        # every column keeps one contiguous run of tensors; runs of adjacent columns overlap or touch, so that every
+        # pairwise-contracted MPS of every sweep is contiguous (the documented domain of contract); pad='loose' drops
+        # that requirement (then the real code may raise ValueError, which is only checked for correspondence)
+        prev = None
         for c in range(C):
-            if rng.random() < 0.5:
-                top = rng.randint(0, R - 1)
-                bot = rng.randint(0, R - 1 - top)
-                for r in range(top):
-                    present[r][c] = False
-                for r in range(R - bot, R):
-                    present[r][c] = False
+            for _ in range(50):
+                top, bot = 0, 0
+                if rng.random() < 0.6:
+                    top = rng.randint(0, R - 1)
+                    bot = rng.randint(0, R - 1 - top)
+                if pad == 'loose' or prev is None or (top <= prev[1] and R - bot >= prev[0]):
+                    break
+            else:
+                top, bot = 0, 0
+            prev = (top, R - bot)
+            for r in range(top):
+                present[r][c] = False
+            for r in range(R - bot, R):
+                present[r][c] = False
     H = [[(rng.randint(1, maxbond) if present[r][c] and present[r][c + 1] else 1) for c in range(C - 1)]
          for r in range(R)]
     V = [[(rng.randint(1, maxbond) if present[r][c] and present[r + 1][c] else 1) for c in range(C)]
@@ -183,6 +201,21 @@ def gen_net(rng, R, C, dtype, mag, maxbond=3, pad=False):
             shape = (V[r - 1][c] if r > 0 else 1, H[r][c] if c < C - 1 else 1,
                      V[r][c] if r < R - 1 else 1, H[r][c - 1] if c > 0 else 1)
             tn[r, c] = mk_tensor(rng, shape, dtype, mag)
+    if dtype != 'object' and exact_guard:
+        # keep int64 / float64 arithmetic exact: every intermediate entry is bounded by the product over cells of
+        # the sum of absolute entries; beyond 2^52 switch the whole network to Python ints
+        bound = 1
+        for t in tn.flatten():
+            if t is not None:
+                bound *= max(int(np.abs(t).sum()), 1)
+        if bound >= 2 ** 52:
+            dtype = 'object'
+            for r in range(R):
+                for c in range(C):
+                    if tn[r, c] is not None:
+                        a = np.empty(tn[r, c].size, dtype=object)
+                        a[:] = [int(x) for x in tn[r, c].flatten()]
+                        tn[r, c] = a.reshape(tn[r, c].shape)
     bonds = [b for row in H for b in row] + [b for row in V for b in row]
     info = {'R': R, 'C': C, 'dtype': dtype, 'mag': mag, 'maxbond': max(bonds + [1]),
             'nones': sum(not p for row in present for p in row)}
@@ -405,7 +438,7 @@ def net_dtype(tn):
 def run(ctx):
     from qecsim.tensortools import mps2d, mps as tt_mps, tsr as tt_tsr
     rng = ctx.rng
-    n_nets = ctx.scale(110, 1500)
+    n_nets = ctx.scale(1200, 12000)
     shapes = [(R, C) for R in range(1, 6) for C in range(1, 6)]
     exact_done = 0
     for it in range(n_nets):
@@ -416,14 +449,13 @@ def run(ctx):
         dtype = rng.choice(['int64', 'object', 'object', 'float64'])
         mag = 'wide'
         if dtype != 'object':
-            mag = safe_mag(R, C, dtype, mag)
-            if mag is None:
-                dtype, mag = 'object', 'wide'
+            mag = rng.choice(['small', 'pos'])
         maxbond = rng.choice([1, 2, 2, 3, 3]) if R * C <= 16 else rng.choice([1, 2, 2, 3])
         pad = rng.random() < 0.35
         tn, info = gen_net(rng, R, C, dtype, mag, maxbond=maxbond, pad=pad)
         sh, st = wire_net(tn)
         nontriv = (R >= 2 or C >= 2) and info['maxbond'] > 1
+        dtype = info['dtype']
         meta = {'net_shape': sh, 'net_sites': st, 'dtype': dtype}
         ctx.count('shape', sh); ctx.count('dtype', dtype); ctx.count('maxbond', info['maxbond'])
         ctx.count('nones', min(info['nones'], 5))
@@ -462,15 +494,17 @@ def run(ctx):
             chi = rng.choice([None, 0, 1, 2, 3, 4, 9, 27, cap, cap + 1, max(cap - 1, 0), -1])
             tol = rng.choice([None, None, 0.0, 0, 1e-8, 0.5])
             r = rng.random()
-            if r < 0.5:
+            if r < 0.55:
                 mask = None
-            elif r < 0.9:
+            elif r < 0.95:
                 mask = np.array([[rng.random() < 0.3 for _ in range(C)] for _ in range(R)], dtype=bool).reshape(R, C)
             else:
                 mask = np.zeros((R + rng.choice([0, 1]), C + 1), dtype=bool)  # wrong shape
-            start = rng.choice([None, None, None, 0, 1, -1, -2, C, C + 3, -C - 2, rng.randint(-C - 1, C + 1)])
-            stop = rng.choice([None, None, None, 0, 1, -1, C, C - 1, C + 3, -C - 2, rng.randint(-C - 1, C + 1)])
-            step = rng.choice([None, None, 1, -1, -1, 2, -2, 3, 0, C, -C])
+            start = rng.choice([None, None, None, None, 0, 1, -1, -2, C, C + 3, -C - 2, rng.randint(-C - 1, C + 1)])
+            stop = rng.choice([None, None, None, None, 0, 1, -1, C, C - 1, C + 3, -C - 2, rng.randint(-C - 1, C + 1)])
+            step = rng.choice([None, None, 1, 1, -1, -1, -1, 2, -2, 3, 0, C, -C])
+            if step is not None and step < 0 and rng.random() < 0.5:
+                start, stop = rng.choice([None, -1, C - 1, C + 2]), rng.choice([None, -C - 1, -C - 5])
             out = impl_contract(tn, chi=chi, tol=tol, start=start, stop=stop, step=step, mask=mask)
             ctx.case(contract_line(tn, chi=chi, tol=tol, start=start, stop=stop, step=step, mask=mask), out,
                      nontrivial=nontriv, meta=dict(meta, args=[chi, tol, start, stop, step]), post=post_full)
@@ -575,6 +609,32 @@ def unit_cases(ctx):
         def sc():
             return 'ok ' + str(cint(tt_tsr.as_scalar(t)))
         ctx.case('c11 scalar ' + wire_t(t), guarded(sc), nontrivial=True)
+    # proper bra / ket pairs (inner product defined), optionally padded with None at the same ends
+    for _ in range(ctx.scale(200, 3000)):
+        L = rng.randint(1, 5)
+        top = rng.randint(0, L - 1) if rng.random() < 0.3 else 0
+        bot = rng.randint(0, L - 1 - top) if rng.random() < 0.3 else 0
+        bra, ket = [None] * L, [None] * L
+        pn = kn = 1
+        dt = rng.choice(['int64', 'object'])
+        for i in range(top, L - bot):
+            last = (i == L - bot - 1)
+            ps, ks = (1, 1) if last else (rng.choice([1, 2, 3]), rng.choice([1, 2, 3]))
+            phys = rng.choice([1, 2, 3])
+            bra[i] = mk_tensor(rng, (pn, phys, ps, 1), dt, 'wide' if dt == 'object' else 'small')
+            ket[i] = mk_tensor(rng, (kn, 1, ks, phys), dt, 'wide' if dt == 'object' else 'small')
+            pn, kn = ps, ks
+        if rng.random() < 0.15:
+            i = rng.randrange(L)
+            (bra if rng.random() < 0.5 else ket)[i] = None   # one-sided hole: copied through by contract_pairwise
+        wb, wk = wire_mps(bra), wire_mps(ket)
+
+        def ip2():
+            v = cint(tt_mps.inner_product(bra, ket))
+            return 'ok ' + (str(v) if v is not None else 'nonint')
+        out = guarded(ip2)
+        ctx.case('c11 inner {} {}'.format(wb, wk), out, nontrivial=(L > 1), meta={'l': wb, 'r': wk})
+        ctx.count('inner_outcome', 'braket:' + out.split(' ')[0])
     # slice resolution: exhaustive small domain
     vals = [None] + list(range(-7, 8))
     steps = [None, 1, -1, 2, -2, 3, -3, 0, 5, -5]
@@ -596,8 +656,9 @@ def incompatible_cases(ctx):
     rng = ctx.rng
     for _ in range(ctx.scale(60, 800)):
         R, C = rng.randint(1, 4), rng.randint(1, 4)
-        tn, info = gen_net(rng, R, C, 'int64', 'small', maxbond=3, pad=rng.random() < 0.3)
-        kind = rng.choice(['hole', 'reshape', 'allnone-col', 'nonscalar'])
+        kind = rng.choice(['hole', 'reshape', 'allnone-col', 'nonscalar', 'loosepad'])
+        tn, info = gen_net(rng, R, C, 'int64', 'small', maxbond=3,
+                           pad=('loose' if kind == 'loosepad' else rng.random() < 0.3))
         r, c = rng.randrange(R), rng.randrange(C)
         if kind == 'hole':
             tn[r, c] = None
@@ -646,10 +707,11 @@ def float_explore(ctx):
     for _ in range(n):
         R, C = rng.randint(1, 5), rng.randint(2, 5)
         tn, info = gen_net(rng, R, C, 'float64', 'pos', maxbond=rng.choice([1, 2, 3]) if R * C <= 16 else 2,
-                           pad=rng.random() < 0.3)
+                           pad=rng.random() < 0.3, exact_guard=False)
+        wide = rng.random() < 0.5
         for t in tn.flatten():
             if t is not None:
-                t *= np.array([10.0 ** rng.uniform(-6, 6) if rng.random() < 0.3 else rng.uniform(0.1, 2.0)
+                t *= np.array([10.0 ** rng.uniform(-6, 6) if wide and rng.random() < 0.3 else rng.uniform(0.1, 2.0)
                                for _ in range(t.size)]).reshape(t.shape)
                 if rng.random() < 0.3:
                     t[tuple(rng.randrange(d) for d in t.shape)] = 0.0
@@ -665,15 +727,17 @@ def float_explore(ctx):
         checks = [('lr', lambda: mps2d.contract(tn), 1e-9), ('rl', lambda: mps2d.contract(tn, step=-1), 1e-9)]
         if not any(t is None for t in tn.flatten()):
             checks.append(('transposed', lambda: mps2d.contract(mps2d.transpose(tn)), 1e-9))
-        checks.append(('lr tol=1e-14', lambda: mps2d.contract(tn, tol=1e-14), 1e-7))
-        checks.append(('rl tol=1e-14', lambda: mps2d.contract(tn, tol=1e-14, step=-1), 1e-7))
+        if not wide:  # a relative singular-value cut is only lossless (to 1e-7) for tensors of comparable scale
+            checks.append(('lr tol=1e-14', lambda: mps2d.contract(tn, tol=1e-14), 1e-7))
+            checks.append(('rl tol=1e-14', lambda: mps2d.contract(tn, tol=1e-14, step=-1), 1e-7))
         for k in range(1, C):
             def sp(k=k, tol=None):
                 l, ml = mps2d.contract(tn, stop=k, tol=tol)
                 r, mr = mps2d.contract(tn, start=-1, stop=k - 1, step=-1, tol=tol)
                 return tt_mps.inner_product(l, r) * ml * mr
             checks.append(('split k={}'.format(k), sp, 1e-9))
-            checks.append(('split k={} tol=1e-14'.format(k), lambda k=k: sp(k, 1e-14), 1e-7))
+            if not wide:
+                checks.append(('split k={} tol=1e-14'.format(k), lambda k=k: sp(k, 1e-14), 1e-7))
         for name, f, tolr in checks:
             evals += 1
             try:
@@ -688,9 +752,9 @@ def float_explore(ctx):
                     key='mps2d.contract:float:' + name.split(' ')[0])
     ctx.explored['float_and_lossless_truncation'] = {
         'evaluations': evals, 'exhaustive': False,
-        'rule': 'positive float64 networks up to 5x5, bonds 1..3, magnitudes 1e-6..1e6, zeros; LR/RL/transposed/every '
-                'split without truncation within 1e-9 relative of the exact rational value; the same with tol=1e-14 '
-                '(SVD path, multipliers != 1) within 1e-7 relative'}
+        'rule': 'positive float64 networks up to 5x5, bonds 1..3, zeros, half of them with magnitudes 1e-6..1e6; LR/RL/transposed/'
+                'every split without truncation within 1e-9 relative of the exact rational value; for the networks of '
+                'comparable scale the same with tol=1e-14 (SVD path, multipliers != 1) within 1e-7 relative'}
     ctx.assumptions[:] = ['LAPACK QR/SVD (scipy.linalg) accuracy on the truncating path (explored only)',
                           'numpy einsum/reshape on int64 / object / float64 arrays behave as numpy documents',
                           'mpmath mpf multiplication rounds once to mp.prec bits']
@@ -760,8 +824,6 @@ def replay(ctx, path):
             r = search(mm)
             print('replay search on', mm['op'][:100], '->', r and r['what'])
             bad += bool(r)
-    if bad:
-        print('VIOLATION property=C11 replay={}'.format(path))
     return 1 if bad else 0
 
 
